@@ -26,6 +26,7 @@ func init() {
 			"C13.R3 control dependence of sample->float64 conversions on the signed flag",
 			"C13.R4 flow-insensitive dependence slice (through memory of locals and pointer arguments of calls) of each analysis field store",
 			"C13.R5 freshness of slices stored into records",
+			"C13.R7 exactness of integer divisions: every integer division by a constant in the backward slice of a stored summary quantity (followed into module helpers) has a dividend that the constant always divides; decided by evaluating the dividend's one-unknown polynomial at 0..47, a non-multiple is the reported witness",
 			"C13.R6 sample ranges: the SSA slice of each pre-trigger quantity reads the record's vector only at indices [0, presamples), that of each post-trigger quantity only at [presamples, len) (cut at the pre-trigger mean); whole-vector reads are reported",
 		},
 		Run: runC13,
@@ -39,10 +40,12 @@ func runC13(p *Prog, r *Report) {
 	r.MinInstances["C13.R4"] = 7
 	r.MinInstances["C13.R5"] = 1
 	r.MinInstances["C13.R6"] = 5
+	r.MinInstances["C13.R7"] = 5
 	c13R1(p, r)
 	c13R2(p, r)
 	c13R3R4R5(p, r)
 	c13R6(p, r)
+	c13R7(p, r)
 }
 
 // ---- R1 -----------------------------------------------------------------------------------
@@ -540,6 +543,10 @@ func c13R3R4R5(p *Prog, r *Report) {
 						if len(loops) == 0 {
 							inLoop = true
 						}
+						// a per-record helper: the record is a parameter, the slice is made once per call
+						if _, isPrm := addrRoot(st.Addr).(*ssa.Parameter); isPrm && LoopContaining(loops, mk) == nil {
+							inLoop = true
+						}
 					}
 					r.Check(fresh && inLoop, "C13.R5", FuncName(fn)+" "+f+" is a fresh slice", p.InstrPos(st), "allocated per record",
 						"the slice stored in the record is not allocated afresh for this record (it aliases storage that the next record's computation overwrites, so all records of a block end up with the last record's values)")
@@ -673,6 +680,45 @@ func c13R6(p *Prog, r *Report) {
 				if want == "post" && ptm != nil && v == ptm {
 					return // the pre-trigger mean enters the post-trigger quantities by definition
 				}
+				// a window of the vector's raw storage, vec.RawVector().Data[lo:hi]: a read of exactly
+				// the samples lo..hi-1
+				if sl, ok := v.(*ssa.Slice); ok {
+					var raw *ssa.Call
+					switch b := sl.X.(type) {
+					case *ssa.Field:
+						raw, _ = b.X.(*ssa.Call)
+					case *ssa.UnOp:
+						if fa, isFA := b.X.(*ssa.FieldAddr); isFA && b.Op == token.MUL {
+							if al, isAl := fa.X.(*ssa.Alloc); isAl {
+								for _, ref := range *al.Referrers() {
+									if st2, isSt := ref.(*ssa.Store); isSt && st2.Addr == ssa.Value(al) {
+										raw, _ = st2.Val.(*ssa.Call)
+									}
+								}
+							}
+						}
+					}
+					if raw != nil && strings.HasSuffix(CalleeName(&raw.Call), ".RawVector") && len(raw.Call.Args) > 0 && isVec(raw.Call.Args[0]) {
+						nread++
+						loZero := sl.Low == nil
+						if sl.Low != nil {
+							if k, isC := constInt(sl.Low); isC && k == 0 {
+								loZero = true
+							}
+						}
+						switch want {
+						case "pre":
+							if !(loZero && sl.High != nil && isPresamples(sl.High)) {
+								bad = fmt.Sprintf("read of a window of the raw samples at %s that is not [0, presamples)", p.InstrPos(sl))
+							}
+						case "post":
+							if !(sl.Low != nil && isPresamples(sl.Low) && sl.High == nil) {
+								bad = fmt.Sprintf("read of a window of the raw samples at %s that is not [presamples, len)", p.InstrPos(sl))
+							}
+						}
+						return
+					}
+				}
 				if c, ok := v.(*ssa.Call); ok {
 					usesVec := false
 					args := c.Call.Args
@@ -785,4 +831,118 @@ func c13ExpandParams(p *Prog, fn *ssa.Function, dep map[string]bool, levels int)
 			})
 		}
 	}
+}
+
+// ---- R7: no truncating integer division inside a summary quantity ------------------------------
+
+// c13R7: the summary quantities are real-valued functions of the samples and of the counts
+// (presamples, record length).  An integer division in the computation of one of them truncates
+// unless the dividend is always a multiple of the divisor.  For each integer `a / k` (k a
+// constant) in the backward slice of a stored summary quantity - also inside the module helpers
+// the value comes from - the dividend is normalised to a polynomial; when it has one unknown, it
+// is evaluated at 0..47: a value that k does not divide is a witness that the quotient is
+// truncated (reported); none means the division is exact; more unknowns are left undecided.
+func c13R7(p *Prog, r *Report) {
+	rec := p.NamedType("", "DataRecord")
+	if rec == nil {
+		return
+	}
+	fields := []string{"pretrigMean", "pretrigDelta", "peakValue", "pulseAverage", "pulseRMS", "residualStdDev"}
+	n := 0
+	for _, fn := range p.LibFuncs() {
+		for _, f := range fields {
+			for _, st := range StoresTo(fn, rec.Obj().Name(), f) {
+				if _, fresh := addrRoot(st.Addr).(*ssa.Alloc); fresh {
+					continue
+				}
+				n++
+				bad, unk := "", ""
+				seen := map[ssa.Value]bool{}
+				var walk func(v ssa.Value, host *ssa.Function, depth int)
+				walk = func(v ssa.Value, host *ssa.Function, depth int) {
+					if v == nil || seen[v] || bad != "" {
+						return
+					}
+					seen[v] = true
+					if bo, ok := v.(*ssa.BinOp); ok && bo.Op == token.QUO && isIntLike(bo.Type()) {
+						if k, isC := constInt(bo.Y); isC && k > 1 {
+							pc := NewPolyCtx(host)
+							dv := pc.Of(bo.X)
+							syms := dv.Symbols()
+							switch {
+							case len(syms) == 0:
+							case len(syms) == 1 && (!strings.Contains(syms[0], "(") || strings.HasPrefix(syms[0], "len(")):
+								for x := int64(0); x < 48 && bad == ""; x++ {
+									val := int64(0)
+									for mono, co := range dv {
+										term := co
+										if mono != "" {
+											for range strings.Split(mono, "*") {
+												term *= x
+											}
+										}
+										val += term
+									}
+									if val%k != 0 {
+										bad = fmt.Sprintf("the integer division `%s / %d` at %s truncates (for %s = %d the dividend is %d)", dv.String(), k, p.InstrPos(bo), syms[0], x, val)
+									}
+								}
+							default:
+								if unk == "" {
+									unk = fmt.Sprintf("integer division `%s / %d` at %s: not decided whether it is exact", dv.String(), k, p.InstrPos(bo))
+								}
+							}
+						}
+					}
+					switch x := v.(type) {
+					case *ssa.Extract:
+						// the one result taken from a helper's tuple
+						if call, ok := x.Tuple.(*ssa.Call); ok {
+							if g := call.Call.StaticCallee(); g != nil && isModuleFn(g) && g.Blocks != nil && depth < 2 && !call.Call.IsInvoke() {
+								Instrs(g, func(in ssa.Instruction) {
+									if ret, ok := in.(*ssa.Return); ok && x.Index < len(ret.Results) {
+										walk(ret.Results[x.Index], g, depth+1)
+									}
+								})
+								for _, a := range call.Call.Args {
+									walk(a, host, depth)
+								}
+								return
+							}
+						}
+						walk(x.Tuple, host, depth)
+						return
+					case *ssa.Call:
+						if g := x.Call.StaticCallee(); g != nil && isModuleFn(g) && g.Blocks != nil && depth < 2 && !x.Call.IsInvoke() {
+							Instrs(g, func(in ssa.Instruction) {
+								if ret, ok := in.(*ssa.Return); ok {
+									for _, res := range ret.Results {
+										walk(res, g, depth+1)
+									}
+								}
+							})
+						}
+					}
+					if in, ok := v.(ssa.Instruction); ok {
+						for _, o := range in.Operands(nil) {
+							if *o != nil {
+								walk(*o, host, depth)
+							}
+						}
+					}
+				}
+				walk(st.Val, fn, 0)
+				key := fmt.Sprintf("%s %s: no truncating integer division in its computation", FuncName(fn), f)
+				switch {
+				case bad != "":
+					r.Bad("C13.R7", key, p.InstrPos(st), bad+": the quantity is a real-valued function of the samples and counts, the truncated quotient changes it (or makes a divisor zero) for such records")
+				case unk != "":
+					r.Unk("C13.R7", key, p.InstrPos(st), unk)
+				default:
+					r.OK("C13.R7", key, p.InstrPos(st), "no integer division by a constant that can truncate")
+				}
+			}
+		}
+	}
+	_ = n
 }
